@@ -31,7 +31,8 @@ CONSTANTS MaxFun,            \* evaluation budget
           DefHardEvalNum,    \* F-07 hard restart labels its first point as evaluation 1
           DefDoubleNruns,    \* F-11 nruns incremented twice when the budget expires while sampling x0
           DefCtrlRhoend,     \* F-14 Controller.rhoend not rescaled at soft restarts
-          DefSuccessNonFinite \* success flag may be attached to a non-finite objective (no final guard)
+          DefSuccessNonFinite, \* success flag may be attached to a non-finite objective (no final guard)
+          DefAutoFlagLeak    \* F-24 the internal auto-detected-restart flag is handed back when the budget forbids the restart
 
 NoSmall == -5
 Inf == VMax + 1
@@ -259,7 +260,8 @@ RunEnd ==
                 /\ npt' = IF IncNpt > 0 THEN MinI(npt + 1, NPT + IncNpt) ELSE npt
                 /\ UNCHANGED exitInfo
            ELSE /\ pc' = "done" /\ UNCHANGED <<x0inherit, restarts, rhoendL, npt>>
-                /\ exitInfo' = LET e1 == IF nruns - hls >= MaxUnsucc THEN Exit("success", "max_unsucc") ELSE Exit(exitInfo.flag, exitInfo.msg)
+                /\ exitInfo' = LET e0 == IF ~DefAutoFlagLeak /\ exitInfo.flag = "auto" THEN Exit("maxfun", "maxfun") ELSE Exit(exitInfo.flag, exitInfo.msg)
+                                   e1 == IF nruns - hls >= MaxUnsucc THEN Exit("success", "max_unsucc") ELSE e0
                                IN IF ~DefSuccessNonFinite /\ e1.flag = "success" /\ ~IsFinite(nbest.obj) THEN Exit("eval_error", "nonfinite") ELSE e1
   /\ mdl' = NoModel /\ ret' = NoBest
   /\ NoEval /\ UNCHANGED <<nruns, rho, rhoendC, softLSR, softLastFopt, geomLeft, addLeft>>
@@ -300,6 +302,8 @@ C10_MaxfunTruth == (pc = "done" /\ exitInfo.flag = "maxfun") => nf = MaxFun
 C10_UnsuccTruth == (pc = "done" /\ exitInfo.msg = "max_unsucc") => nruns >= MaxUnsucc
 C10_Nruns == pc = "done" => nruns = restarts + 1
 C10_SuccessFinite == (pc = "done" /\ exitInfo.flag = "success") => IsFinite(best.obj)
+\* --- C07: the flag handed back is a documented exit code (the auto-detected-restart flag is internal to the restart machinery)
+C07_DocumentedFlag == pc = "done" => exitInfo.flag # "auto"
 \* --- C11: the evaluation numbers returned with the Jacobian are a snapshot of slot contents: each names an evaluated point
 C11_JacNames == (pc = "done" /\ best.hasjac) => \A i \in 1..Len(best.jacen) : best.jacen[i] = 0 \/ best.jacen[i] \in Pts
 C11_Snapshot == \A i \in 1..Len(mdl.jacen) : mdl.jacen[i] = 0 \/ mdl.jacen[i] \in Pts
